@@ -627,6 +627,13 @@ func (v Value) Export() (interface{}, error) {
 }
 
 func (v Value) export() interface{} {
+	return v.exportActive(nil)
+}
+
+// exportActive is export with the set of objects whose export is in progress:
+// a reference back to one of them (a cyclic object graph) exports as nil
+// instead of recursing without end.
+func (v Value) exportActive(active map[*object]struct{}) interface{} {
 	switch v.kind {
 	case valueUndefined:
 		return nil
@@ -653,6 +660,14 @@ func (v Value) export() interface{} {
 		case *goSliceObject:
 			return value.value.Interface()
 		}
+		if _, cyclic := active[obj]; cyclic {
+			return nil
+		}
+		if active == nil {
+			active = make(map[*object]struct{})
+		}
+		active[obj] = struct{}{}
+		defer delete(active, obj)
 		if obj.class == classArrayName {
 			result := make([]interface{}, 0)
 			lengthValue := obj.get(propertyLength)
@@ -665,7 +680,7 @@ func (v Value) export() interface{} {
 			for index := range length {
 				name := strconv.FormatInt(int64(index), 10)
 				// A hole reads as undefined (and exports as nil): it keeps its index.
-				value := obj.get(name).export()
+				value := obj.get(name).exportActive(active)
 
 				t = reflect.TypeOf(value)
 
@@ -712,7 +727,7 @@ func (v Value) export() interface{} {
 		obj.enumerate(false, func(name string) bool {
 			value := obj.get(name)
 			if value.IsDefined() {
-				result[name] = value.export()
+				result[name] = value.exportActive(active)
 			}
 			return true
 		})
